@@ -127,3 +127,13 @@ Section OracleK.
     if native then random_between_2exp orc fuel (u64 lo) (u64 hi) i
     else Some (random_between orc lo hi i).
 End OracleK.
+
+(* ================================================================ Part L: GIV_ExtensionrandIter constructor (extension.h, after c502f80) *)
+(* GIV_ExtensionrandIter(F, seed = 0, size = 0) : _size(size), _givrand(GivRandom(seed))
+     { Type card = Type(F.base_field().cardinality()); if ((_size > card) || (_size == 0)) _size = card; }
+   before c502f80 the two arguments came in the order (size, seed) and the bound was F.characteristic().
+   Params.ext_randiter_seed_first / ext_randiter_bounds_by_base_cardinality are read from the tree under check.
+   a1 a2 = the second and third constructor arguments as the caller wrote them; returns (seed, sampling size kept) *)
+Definition ext_randiter_ctor (a1 a2 charact basecard : Z) : Z * Z :=
+  let '(seed, size) := if ext_randiter_seed_first then (a1, a2) else (a2, a1) in
+  (seed, ext_size size (if ext_randiter_bounds_by_base_cardinality then basecard else charact)).
